@@ -47,9 +47,9 @@ def run(ctx):
     files = {k: os.path.join(d, k + '.json') for k in ('OUT_32', 'OUT_16', 'OUT_8', 'OUT_UV', 'OUT_VAR', 'OUT_VS')}
     varseqs = set()
     for _ in range(60):
-        ident = bytes(rng.randrange(32, 127) for _ in range(rng.choice([0, 1, 3, 10])))
+        ident = bytes(rng.randrange(32, 127) for _ in range(rng.choice([0, 1, 3, 10, 127, 128, 255])))
         origin = rng.choice([b'\x00', b'\x7f', b'\x81\x00', b'\xc0\x00\x40\x00'])
-        typ = bytes(rng.randrange(65, 91) for _ in range(rng.choice([0, 1, 5])))
+        typ = bytes(rng.randrange(65, 91) for _ in range(rng.choice([0, 1, 5, 127, 128, 200, 255])))
         seq = bytes([len(typ)]) + typ + origin + bytes([rng.randrange(256)]) + bytes([len(ident)]) + ident + bytes(rng.randrange(256) for _ in range(6))
         varseqs.add(tuple(seq))
     ctx.tlc_check('MC_RepCodesTable', 'RepCodesTable', consts={'VarSeqs': frozenset(varseqs)},
@@ -240,6 +240,35 @@ def run(ctx):
         if ld.index != on or R.OBNAME_len(by, t) != on:
             bad('var', 'OBNAME consumed %d (len helper %d), standard %d in %s' % (ld.index, R.OBNAME_len(by, t), on, by.hex()), dict(bytes=by.hex()))
         ctx.case(('var', by.hex()), True)
+    # IDENT / UNITS (one length byte, 0..255 characters) and ASCII (UVARI length): the VALUE and the consumption, for lengths on both
+    # sides of 128 (where a UVARI grows a second byte) and of 16384
+    for n_ in (0, 1, 2, 126, 127, 128, 129, 191, 192, 200, 255):
+        txt = bytes(65 + (k * 7 + n_) % 26 for k in range(n_))
+        for code, name in ((19, 'IDENT'), (27, 'UNITS')):
+            ld = RF.LogicalData(bytes([n_]) + txt + b'\x55\xaa')
+            ctx.case(('text', name, n_), True)
+            try:
+                got = R.code_read(code, ld)
+                gotb = bytes(got) if isinstance(got, (bytes, bytearray)) else str(got).encode('latin-1')
+                if gotb != txt or ld.index != 1 + n_:
+                    bad('var', '%s of %d characters decodes to %d characters %r... consuming %d bytes, standard %d' % (name, n_, len(gotb), gotb[:12], ld.index, 1 + n_),
+                        dict(code=code, length=n_))
+            except Exception as e:
+                bad('var', '%s of %d characters raised %s: %s' % (name, n_, type(e).__name__, e), dict(code=code, length=n_))
+        if R.IDENT_len(bytes([n_]) + txt + b'zz', 0) != 1 + n_:
+            bad('var', 'IDENT_len of %d characters = %d' % (n_, R.IDENT_len(bytes([n_]) + txt + b'zz', 0)), dict(length=n_))
+    for n_ in (0, 1, 127, 128, 300, 16383, 16384, 20000):
+        txt = bytes(97 + (k * 5 + n_) % 26 for k in range(n_))
+        pre = bytes([n_]) if n_ < 128 else (struct.pack('>H', 0x8000 | n_) if n_ < 16384 else struct.pack('>I', 0xC0000000 | n_))
+        ld = RF.LogicalData(pre + txt + b'\x55\xaa')
+        ctx.case(('text', 'ASCII', n_), True)
+        try:
+            got = R.code_read(20, ld)
+            gotb = bytes(got) if isinstance(got, (bytes, bytearray)) else str(got).encode('latin-1')
+            if gotb != txt or ld.index != len(pre) + n_:
+                bad('var', 'ASCII of %d characters decodes to %d characters consuming %d bytes, standard %d' % (n_, len(gotb), ld.index, len(pre) + n_), dict(code=20, length=n_))
+        except Exception as e:
+            bad('var', 'ASCII of %d characters raised %s: %s' % (n_, type(e).__name__, e), dict(code=20, length=n_))
     # DTIME: 8 bytes, fields as written
     for _ in range(200):
         y, tz, mo, dd, hh, mi, ss, ms = rng.randrange(256), rng.randrange(3), rng.randint(1, 12), rng.randint(1, 28), rng.randrange(24), rng.randrange(60), rng.randrange(60), rng.randrange(1000)
